@@ -18,6 +18,21 @@
 //!   `MPOISON how=… checks=… <pipeline>`  a collector that survived a panic inside a critical section is attached.
 //!   `MOVF checks=… init=… add=…`  one increment at the u64 boundary.
 //!   `SMOKE`  every public call on one thread under a watchdog (a self-dead-locking call = HANG, not a hung check).
+//!   `MJSON sum0=… ops=…`  the JSON export over the whole VALUE space: counters, gauges (1.5, NaN, ±inf, ±0.0, random
+//!        bit patterns), histograms (empty / 1 / many values, NaN and infinities included), user metrics whose
+//!        `value()` is null / an object / an array / a string, descriptions, names "", "A", " a ", non-ASCII, "a.b",
+//!        names differing only in case; `to_json()`, `snapshot()` and `save_to_file()` (file parsed back).
+//!   `MMID mid=… <pipeline>`  one run during which the pipeline's own closure uses the USER's handle or empties the
+//!        slot (`take_metrics`): what the user's handle shows afterwards.
+//!   `MHELD which=start|end mode=…`  one run whose `record_metrics_start` / `_end` meets a pipeline graph lock HELD by
+//!        another thread (hook `verif_with_graph_lock_held`) and released 30 ms later: the stamp must be taken.
+//!   `MHELDC init=… call=<op>`  one collector call made while another thread HOLDS the collector's mutex (hook
+//!        `verif_with_lock_held`): it must wait and take effect (`update-dropped-under-contention`).
+//!   `MCONTEND nodes=… observers=3`  free-running: hundreds of runs (fresh collector each) of a small branch of a
+//!        pipeline with a 1500-node side branch while three threads take snapshots / read the slot / add nodes;
+//!        after EVERY successful run both stamps must be there (`elapsed-missing-after-success`).
+//!   `FIRSTINC a=… b=…`  two free-running threads that both start `increment_counter` on a name that is ABSENT,
+//!        on 10^4 fresh collectors (released together by a spin barrier).
 //!
 //! Oracles (independent of the Lean model):
 //!   * increment-only programs: final counter = initial + Σ increments            (`lost-update`)
@@ -37,8 +52,20 @@
 //!   * below 2^64 an increment is exact; at the boundary the metric stays a counter and the
 //!     collector stays usable                   (`overflow-corrupts-counter`, `collector-unusable-after-overflow`)
 //!   * every call returns: scheduler time-out (confirmed by re-execution), watchdogs around free-running
-//!     threads and pipeline runs, SMOKE, and a progress watchdog over the whole check (`collector-call-hangs`,
+//!     threads and pipeline runs (every time-out is confirmed by a second execution with a longer limit before
+//!     it is reported), SMOKE, and a progress watchdog over the whole check (`collector-call-hangs`,
 //!     `run-does-not-terminate`)
+//!   * MJSON (the expectation is built from the REQUEST, not from `snapshot()`): the key set of `to_json()` is exactly
+//!     the set of names registered / set / incremented (+ the execution time iff both stamps), each member's value is
+//!     the registered metric's own `value()` bit for bit, its description the metric's, no other member; the
+//!     histogram's statistics equal a plain re-computation; `snapshot()` likewise; the file written by
+//!     `save_to_file` parses back to `to_json()` (`json-missing-registered-key`, `json-has-unregistered-member`,
+//!     `json-value-differs-from-registered-metric`, `json-description-differs`, `histogram-stats-wrong`,
+//!     `snapshot-differs-from-registered-metrics`, `save-to-file-differs-from-to-json`, `save-to-file-failed`,
+//!     `export-panicked`)
+//!   * every guard acquisition of the collector's mutex (COUNTED by the `verif-hooks` wrapper around `lock()`)
+//!     is preceded by a yield point, per call                                   (`lock-acquisition-without-yield-point`)
+//!   * two threads that both start on an absent name: final = a + b                  (`lost-update-free-running`)
 
 use crate::ctx::{Ctx, guarded};
 use crate::pipe::{self, Fn_, Mode as PMode, Outcome, Prog as PProg, Shape, Step, V};
@@ -265,6 +292,9 @@ struct Coop {
 /// a critical section of the collector lasts microseconds; a managed thread that stays RUNNING this long
 /// is blocked (a lock taken twice, a lock held across a yield point, …): the execution is a HANG
 const HANG_SECS: u64 = 10;
+/// limit of the CONFIRMING re-execution of a time-out
+const HANG_CONFIRM_SECS: u64 = 40;
+static HANG_LIMIT: std::sync::atomic::AtomicU64 = std::sync::atomic::AtomicU64::new(HANG_SECS);
 static HANGS: std::sync::atomic::AtomicUsize = std::sync::atomic::AtomicUsize::new(0);
 /// time-outs that did not repeat (machine stalls), reported in the evidence
 static STALLS: std::sync::atomic::AtomicUsize = std::sync::atomic::AtomicUsize::new(0);
@@ -297,7 +327,18 @@ fn wait_until(limit: Option<std::time::Duration>, mut cond: impl FnMut() -> bool
 
 thread_local! {
     static ME: RefCell<Option<(usize, Arc<Coop>)>> = const { RefCell::new(None) };
+    /// yield points of src/metrics.rs passed by this thread (managed or not)
     static SECS: Cell<u32> = const { Cell::new(0) };
+}
+
+/// run `f` on this thread; returns (guard acquisitions of the collector mutex counted by the hook inside
+/// src/metrics.rs, yield points passed)
+fn counted(f: impl FnOnce()) -> (u32, u32) {
+    install_callback();
+    let y0 = SECS.with(Cell::get);
+    let l0 = ironbeam::verif_hooks::locks_acquired_by_this_thread();
+    f();
+    ((ironbeam::verif_hooks::locks_acquired_by_this_thread() - l0) as u32, SECS.with(Cell::get) - y0)
 }
 
 fn install_callback() {
@@ -307,6 +348,7 @@ fn install_callback() {
             if !site.starts_with("metrics:") {
                 return;
             }
+            SECS.with(|s| s.set(s.get() + 1));
             let me = ME.with(|m| m.borrow().clone());
             if let Some((tid, coop)) = me {
                 use std::sync::atomic::Ordering::{Acquire, Release};
@@ -319,7 +361,6 @@ fn install_callback() {
                     return;
                 }
                 coop.grant.store(NO_GRANT, Release);
-                SECS.with(|s| s.set(s.get() + 1));
             }
         })));
     });
@@ -362,7 +403,10 @@ struct Exec {
     taken: Vec<usize>,
     enabled: Vec<Vec<usize>>,
     complete: bool,
+    /// guard acquisitions per call, per thread (counted by the hook in src/metrics.rs)
     secs: Vec<Vec<u32>>,
+    /// yield points passed per call, per thread
+    yields: Vec<Vec<u32>>,
     snap: String,
     keys: Vec<String>,
     json: String,
@@ -402,31 +446,46 @@ impl Exec {
 /// deadlock is deterministic at lock granularity and hangs again; a stall of the machine (the box is shared,
 /// load averages of 60 on 16 cores occur) does not. Only a confirmed time-out is reported as HANG.
 fn execute(init: &Init, prog: &Prog, policy: Policy) -> Exec {
-    let (ex, again) = match policy {
-        Policy::Prefix(p) => {
-            let ex = execute_once(init, prog, Policy::Prefix(p));
-            if !ex.hang {
-                return ex;
-            }
-            (ex, execute_once(init, prog, Policy::Prefix(p)))
-        }
-        Policy::Random(r) => {
-            let ex = execute_once(init, prog, Policy::Random(r));
-            if !ex.hang {
-                return ex;
-            }
-            // same choices up to the time-out, then the lowest enabled thread: a complete schedule
-            let mut again = execute_once(init, prog, Policy::Prefix(&ex.taken));
-            again.complete = !again.hang;
-            (ex, again)
-        }
+    let r = execute_confirmed(init, prog, policy);
+    HANG_LIMIT.store(HANG_SECS, std::sync::atomic::Ordering::Relaxed);
+    r
+}
+fn execute_confirmed(init: &Init, prog: &Prog, policy: Policy) -> Exec {
+    // a time-out is reported only if it repeats TWICE (40 s each) after the machine has become responsive again
+    let confirm = || {
+        progress();
+        settle();
+        HANG_LIMIT.store(HANG_CONFIRM_SECS, std::sync::atomic::Ordering::Relaxed);
     };
-    if again.hang {
-        HANGS.fetch_add(1, std::sync::atomic::Ordering::Relaxed);
-        return Exec { taken: ex.taken, ..again };
+    let (first, forced): (Exec, Option<&[usize]>) = match policy {
+        Policy::Prefix(p) => (execute_once(init, prog, Policy::Prefix(p)), Some(p)),
+        Policy::Random(r) => (execute_once(init, prog, Policy::Random(r)), None),
+    };
+    if !first.hang {
+        return first;
     }
-    STALLS.fetch_add(1, std::sync::atomic::Ordering::Relaxed);
-    again
+    let taken = first.taken.clone();
+    let mut again = first;
+    for _ in 0..2 {
+        confirm();
+        let ex = match forced {
+            // the same forced prefix
+            Some(p) => execute_once(init, prog, Policy::Prefix(p)),
+            // the same choices up to the time-out, then the lowest enabled thread: a complete schedule
+            None => {
+                let mut e = execute_once(init, prog, Policy::Prefix(&taken));
+                e.complete = !e.hang;
+                e
+            }
+        };
+        if !ex.hang {
+            STALLS.fetch_add(1, std::sync::atomic::Ordering::Relaxed);
+            return ex;
+        }
+        again = ex;
+    }
+    HANGS.fetch_add(1, std::sync::atomic::Ordering::Relaxed);
+    Exec { taken, ..again }
 }
 
 fn execute_once(init: &Init, prog: &Prog, mut policy: Policy) -> Exec {
@@ -439,7 +498,7 @@ fn execute_once(init: &Init, prog: &Prog, mut policy: Policy) -> Exec {
         grant: std::sync::atomic::AtomicUsize::new(NO_GRANT),
         abandoned: std::sync::atomic::AtomicBool::new(false),
     });
-    let (rtx, rrx) = std::sync::mpsc::channel::<(usize, Option<Vec<u32>>)>();
+    let (rtx, rrx) = std::sync::mpsc::channel::<(usize, Option<(Vec<u32>, Vec<u32>)>)>();
     for (tid, ops) in prog.iter().enumerate() {
         let ops = ops.clone();
         let c = coll.clone();
@@ -450,12 +509,13 @@ fn execute_once(init: &Init, prog: &Prog, mut policy: Policy) -> Exec {
                 let _fin = FinishGuard(tid, coop2.clone());
                 ME.with(|m| *m.borrow_mut() = Some((tid, coop2.clone())));
                 let mut secs = Vec::with_capacity(ops.len());
+                let mut ylds = Vec::with_capacity(ops.len());
                 for op in &ops {
-                    let before = SECS.with(Cell::get);
-                    apply(&c, op);
-                    secs.push(SECS.with(Cell::get) - before);
+                    let (l, y) = counted(|| apply(&c, op));
+                    secs.push(l);
+                    ylds.push(y);
                 }
-                secs
+                (secs, ylds)
             }));
             ME.with(|m| *m.borrow_mut() = None);
             let _ = rtx.send((tid, r.ok()));
@@ -469,7 +529,7 @@ fn execute_once(init: &Init, prog: &Prog, mut policy: Policy) -> Exec {
     let mut hang = false;
     loop {
         // wait until no managed thread is running
-        if !wait_until(Some(std::time::Duration::from_secs(HANG_SECS)), || coop.st.iter().all(|s| s.load(Acquire) != RUNNING)) {
+        if !wait_until(Some(std::time::Duration::from_secs(HANG_LIMIT.load(std::sync::atomic::Ordering::Relaxed))), || coop.st.iter().all(|s| s.load(Acquire) != RUNNING)) {
             hang = true;
             break;
         }
@@ -523,20 +583,21 @@ fn execute_once(init: &Init, prog: &Prog, mut policy: Policy) -> Exec {
         coop.abandoned.store(true, Release);
         POOL.lock().unwrap_or_else(std::sync::PoisonError::into_inner).clear();
         std::mem::forget(coll);
-        return Exec { taken, enabled: enabled_log, complete: false, secs: vec![vec![]; n], snap: String::new(), keys: vec![], json: String::new(), json_fail: None, el: false, panicked: false, hang: true };
+        return Exec { taken, enabled: enabled_log, complete: false, secs: vec![vec![]; n], yields: vec![vec![]; n], snap: String::new(), keys: vec![], json: String::new(), json_fail: None, el: false, panicked: false, hang: true };
     }
     let mut secs = vec![vec![]; n];
+    let mut yields = vec![vec![]; n];
     let mut panicked = false;
     for _ in 0..n {
         match rrx.recv() {
-            Ok((tid, Some(s))) => secs[tid] = s,
+            Ok((tid, Some((s, y)))) => { secs[tid] = s; yields[tid] = y; }
             _ => panicked = true,
         }
     }
     let obs = guarded(|| (canon_snapshot(&coll), json_obs(&coll), coll.elapsed().is_some()));
     match obs {
-        Ok((snap, j, el)) => Exec { taken, enabled: enabled_log, complete, secs, snap, keys: j.keys, json: j.canon, json_fail: j.fail, el, panicked, hang: false },
-        Err(_) => Exec { taken, enabled: enabled_log, complete, secs, snap: String::new(), keys: vec![], json: String::new(), json_fail: None, el: false, panicked: true, hang: false },
+        Ok((snap, j, el)) => Exec { taken, enabled: enabled_log, complete, secs, yields, snap, keys: j.keys, json: j.canon, json_fail: j.fail, el, panicked, hang: false },
+        Err(_) => Exec { taken, enabled: enabled_log, complete, secs, yields, snap: String::new(), keys: vec![], json: String::new(), json_fail: None, el: false, panicked: true, hang: false },
     }
 }
 
@@ -654,11 +715,15 @@ fn emit(cx: &mut Ctx, init: &Init, prog: &Prog, sched: &[usize], ex: &Exec, orc:
     let max_secs = ex.secs.iter().flatten().copied().max().unwrap_or(0);
     cx.count(&format!("metrics:max-sections-per-call={max_secs}"));
     if ex.hang {
-        cx.oracle_fail(i, "collector-call-hangs", format!("after the schedule prefix {:?} a thread neither reached its next lock acquisition nor finished within {HANG_SECS} s", ex.taken));
+        cx.oracle_fail(i, "collector-call-hangs", format!("after the schedule prefix {:?} a thread neither reached its next lock acquisition nor finished within {HANG_SECS} s, nor — twice, each time after the machine had become responsive again — within {HANG_CONFIRM_SECS} s", ex.taken));
         return;
     }
     if ex.panicked {
         cx.oracle_fail(i, "collector-panicked", "a collector call panicked".into());
+        return;
+    }
+    if ex.secs != ex.yields {
+        cx.oracle_fail(i, "lock-acquisition-without-yield-point", format!("guard acquisitions per call {:?} (counted inside src/metrics.rs) differ from the yield points passed {:?}: the scheduler does not see every critical section", ex.secs, ex.yields));
         return;
     }
     if let Some(want) = &orc.inc_only {
@@ -778,14 +843,26 @@ fn stress(cx: &mut Ctx, init: Option<u64>, threads: usize, per: usize, amounts: 
         amounts.iter().map(|x| x.to_string()).collect::<Vec<_>>().join(",")
     );
     // the whole free-running run sits under a watchdog: a deadlocking collector gives HANG, not a hung check
-    let r = pipe::with_watchdog(180, move || stress_body(init, threads, per, &amounts_v, jitter));
+    let mut r = None;
+    for (attempt, secs) in [60u64, 150].into_iter().enumerate() {
+        if attempt > 0 {
+            settle();
+        }
+        let a = amounts_v.clone();
+        r = pipe::with_watchdog(secs, move || stress_body(init, threads, per, &a, jitter));
+        progress();
+        if r.is_some() {
+            break;
+        }
+        cx.count("stress:time-out-re-executed");
+    }
     let (got, panicked) = match r {
         Some(Ok(x)) => x,
         Some(Err(_)) => (Err("panic".to_string()), true),
         None => {
             HANGS.fetch_add(1, std::sync::atomic::Ordering::Relaxed);
             let i = cx.case(req, "HANG".into(), true);
-            cx.oracle_fail(i, "collector-call-hangs", format!("{threads} free-running threads x {per} increments did not finish within 180 s"));
+            cx.oracle_fail(i, "collector-call-hangs", format!("{threads} free-running threads x {per} increments did not finish within 60 s, nor within 150 s when run again after the machine had settled"));
             return;
         }
     };
@@ -852,8 +929,12 @@ fn outcome_of(r: Option<Result<anyhow::Result<Vec<V>>, String>>) -> Outcome {
 /// it with the real engine; canonical `PIPE` answer.
 fn run_prog_on(p: &Pipeline, prog: &PProg, mode: PMode) -> String {
     let mut out = Outcome::Hang;
-    // a run that does not come back within 10 s is tried once more with 30 s before it counts as a HANG
-    for secs in [10, 30] {
+    // a run that does not come back within 10 s is tried once more with 40 s before it counts as a HANG
+    for (attempt, secs) in [10, 40].into_iter().enumerate() {
+        progress();
+        if attempt > 0 {
+            settle();
+        }
         let (p2, prog2) = (p.clone(), prog.clone());
         out = outcome_of(pipe::with_watchdog(secs, move || {
             let c = pipe::build(&p2, &prog2);
@@ -893,7 +974,17 @@ fn prog_text(prog: &PProg, mode: PMode) -> String {
 /// `MRUN`: the same generated program collected (a) on a pipeline without a collector — the baseline —,
 /// (b) on a second pipeline without one, (c) on a pipeline WITH a collector, optionally while another
 /// thread hammers that collector. The model computes the expected result from the program's description.
-fn mrun(cx: &mut Ctx, prog: &PProg, mode: PMode, pre: &[Op], runs: &[&str], hammer: bool) {
+/// what another thread does to the shared collector WHILE the pipeline runs
+#[derive(Clone, Copy, PartialEq, Eq, Debug)]
+enum Hammer {
+    No,
+    /// `increment_counter` + `snapshot`
+    IncSnap,
+    /// `set_counter`, `register` (gauge / counter under changing names), `increment_counter`, `to_json`, `elapsed`
+    SetRegister,
+}
+
+fn mrun(cx: &mut Ctx, prog: &PProg, mode: PMode, pre: &[Op], runs: &[&str], hammer: Hammer) {
     let canon = prog.canon();
     let base = run_prog_on(&Pipeline::default(), prog, mode);
     // independent plain-Rust evaluation of the same steps (no ironbeam, no Lean)
@@ -908,14 +999,26 @@ fn mrun(cx: &mut Ctx, prog: &PProg, mode: PMode, pre: &[Op], runs: &[&str], hamm
             p.set_metrics(coll.clone());
         }
         let stop = Arc::new(std::sync::atomic::AtomicBool::new(false));
-        let hammer_thread = if with && hammer {
+        let hammer_thread = if with && hammer != Hammer::No {
             let c = coll.clone();
             let s = stop.clone();
             Some(std::thread::spawn(move || {
                 let mut n = 0u64;
                 while !s.load(std::sync::atomic::Ordering::Relaxed) {
                     c.increment_counter("hammer", 1);
-                    let _ = c.snapshot();
+                    if hammer == Hammer::IncSnap {
+                        let _ = c.snapshot();
+                    } else {
+                        c.set_counter("hset", n);
+                        let mut h = c.clone();
+                        match n % 3 {
+                            0 => h.register(Box::new(GaugeMetric::new("hreg", n as f64).with_description("hammer"))),
+                            1 => h.register(Box::new(CounterMetric::with_value("hreg", n))),
+                            _ => h.register(Box::new(ironbeam::metrics::HistogramMetric::with_values("hreg", vec![n as f64, 1.0]))),
+                        }
+                        let _ = c.to_json();
+                        let _ = c.elapsed();
+                    }
                     n += 1;
                 }
                 n
@@ -935,8 +1038,20 @@ fn mrun(cx: &mut Ctx, prog: &PProg, mode: PMode, pre: &[Op], runs: &[&str], hamm
                 last_ok = t.starts_with("OK");
                 res.push(t);
             } else {
-                let (p2, k2) = (p.clone(), k.to_string());
-                res.push(match pipe::with_watchdog(10, move || run_failing(&p2, &k2)) {
+                // a run that does not come back within 10 s is tried once more with 40 s before it counts as a HANG
+                let mut out = None;
+                for (attempt, secs) in [10u64, 40].into_iter().enumerate() {
+                    if attempt > 0 {
+                        settle();
+                    }
+                    let (p2, k2) = (p.clone(), k.to_string());
+                    out = pipe::with_watchdog(secs, move || run_failing(&p2, &k2));
+                    progress();
+                    if out.is_some() {
+                        break;
+                    }
+                }
+                res.push(match out {
                     None => "HANG".into(),
                     Some(Err(_)) => "PANIC".into(),
                     Some(Ok(t)) => t,
@@ -954,7 +1069,7 @@ fn mrun(cx: &mut Ctx, prog: &PProg, mode: PMode, pre: &[Op], runs: &[&str], hamm
         if let Some(c) = &got {
             el = c.elapsed().is_some();
             let j = json_obs(c);
-            let strip = |s: &str| join_or(s.split(',').filter(|r| !r.starts_with("hammer:") && *r != "-").map(String::from).collect(), ",");
+            let strip = |s: &str| join_or(s.split(',').filter(|r| !r.starts_with("hammer:") && !r.starts_with("hset:") && !r.starts_with("hreg:") && *r != "-").map(String::from).collect(), ",");
             let json_s = strip(&j.canon);
             let snap_s = strip(&canon_snapshot(c));
             keys = j.keys;
@@ -988,11 +1103,11 @@ fn mrun(cx: &mut Ctx, prog: &PProg, mode: PMode, pre: &[Op], runs: &[&str], hamm
             pipe::count_prog(cx, prog);
         }
         if res.iter().any(|r| r == "HANG") || base == "HANG" {
-            cx.oracle_fail(i, "run-does-not-terminate", format!("no result within 10 s: baseline {base}, runs {res:?}"));
+            cx.oracle_fail(i, "run-does-not-terminate", format!("no result within 10 s nor, run again, within 40 s: baseline {base}, runs {res:?}"));
             continue;
         }
         if let Some(n) = hammered {
-            cx.count("mrun:hammered-during-run");
+            cx.count(&format!("mrun:hammered-during-run:{hammer:?}"));
             if let Some(c) = &got {
                 let h = c.snapshot().get("hammer").and_then(|v| v.as_u64());
                 if n > 0 && h != Some(n) {
@@ -1028,6 +1143,35 @@ fn mrun(cx: &mut Ctx, prog: &PProg, mode: PMode, pre: &[Op], runs: &[&str], hamm
 /// not refreshed by the second run gives an elapsed time above the window, an end stamp that is not
 /// refreshed gives zero (`duration_since` saturates). `execution_time_ms` of `to_json()` must be that elapsed time.
 fn msleep(cx: &mut Ctx, mode: PMode, nruns: usize) {
+    // a run that does not come back within 10 s is a machine stall or a dead-lock: the WHOLE case is run again
+    // from scratch (fresh pipeline and collector, so that a late stamp of the stalled run cannot disturb the
+    // measurement) with a 60 s limit; only a second time-out is reported
+    let mut got = msleep_attempt(mode, nruns, 10);
+    progress();
+    if got.is_none() {
+        cx.count("msleep:time-out-re-executed");
+        settle();
+        got = msleep_attempt(mode, nruns, 60);
+        progress();
+    }
+    match got {
+        Some((req, real, fails)) => {
+            let i = cx.case(req, real, nruns >= 2);
+            tick(cx);
+            cx.count(&format!("msleep:runs={nruns}"));
+            for (sig, d) in fails {
+                cx.oracle_fail(i, sig, d);
+            }
+        }
+        None => {
+            let i = cx.case(format!("ORACLE-ONLY msleep-{}-{nruns}", mode.enc()), "-".into(), false);
+            tick(cx);
+            cx.oracle_fail(i, "run-does-not-terminate", format!("a pipeline whose closure sleeps {SLEEP_MS} ms ({}, {nruns} runs) did not return within 10 s nor, run again from scratch, within 60 s", mode.enc()));
+        }
+    }
+}
+
+fn msleep_attempt(mode: PMode, nruns: usize, watchdog_secs: u64) -> Option<(String, String, Vec<(&'static str, String)>)> {
     let n0 = 5i64;
     let prog = PProg { shape: Shape::T, src: vec![V::I(n0)], steps: vec![Step::Map(Fn_::Add(1))] };
     let p = Pipeline::default();
@@ -1042,7 +1186,7 @@ fn msleep(cx: &mut Ctx, mode: PMode, nruns: usize) {
         }
         let p2 = p.clone();
         let w0 = std::time::Instant::now();
-        let out = outcome_of(pipe::with_watchdog(10, move || {
+        let out = outcome_of(pipe::with_watchdog(watchdog_secs, move || {
             let c = from_vec(&p2, vec![V::I(n0)]).map(move |v: &V| {
                 std::thread::sleep(sleep);
                 Fn_::Add(1).eval(v)
@@ -1050,6 +1194,9 @@ fn msleep(cx: &mut Ctx, mode: PMode, nruns: usize) {
             pipe::collect(pipe::Coll::T(c), mode)
         }));
         let wall = w0.elapsed();
+        if matches!(out, Outcome::Hang) {
+            return None;
+        }
         res.push(pipe::outcome_answer(&out, "seq"));
         let el = coll.elapsed();
         let class = match el {
@@ -1075,12 +1222,7 @@ fn msleep(cx: &mut Ctx, mode: PMode, nruns: usize) {
     }
     let req = format!("MSLEEP sleep={SLEEP_MS} ticks={} {}", ticks.join(","), prog_text(&prog, mode));
     let real = format!("el={} jt={} res= {}", els.join(","), jts.join(","), res.join(" ;; "));
-    let i = cx.case(req, real, nruns >= 2);
-    tick(cx);
-    cx.count(&format!("msleep:runs={nruns}"));
-    for (sig, d) in fails {
-        cx.oracle_fail(i, sig, d);
-    }
+    Some((req, real, fails))
 }
 
 struct Panicky;
@@ -1180,6 +1322,9 @@ fn overflow_case(cx: &mut Ctx, init: Option<Result<u64, ()>>, add: u64) {
 // ---------------------------------------------------------------------------------------------
 
 fn repo_metrics_rs() -> Option<String> {
+    repo_src("src/metrics.rs")
+}
+fn repo_src(file: &str) -> Option<String> {
     let manifest = std::fs::read_to_string(concat!(env!("CARGO_MANIFEST_DIR"), "/Cargo.toml")).ok()?;
     let line = manifest.lines().find(|l| l.trim_start().starts_with("ironbeam"))?;
     let i = line.find("path")?;
@@ -1187,48 +1332,1012 @@ fn repo_metrics_rs() -> Option<String> {
     let q1 = rest.find('"')?;
     let q2 = rest[q1 + 1..].find('"')?;
     let path = &rest[q1 + 1..q1 + 1 + q2];
-    std::fs::read_to_string(format!("{path}/src/metrics.rs")).ok()
+    std::fs::read_to_string(format!("{path}/{file}")).ok()
 }
 
-/// `LOCKSITES`: every `.lock()` of src/metrics.rs, per method, and how many of them are NOT immediately
-/// preceded by a `verif_hooks::yield_point("metrics:<method>:…")` (such a lock would be invisible to the
-/// cooperative scheduler, so the lock-granular enumeration would silently stop being exhaustive).
+/// `LOCKSITES`: every public method of the collector is called ONCE on this thread and the guard acquisitions
+/// it makes are COUNTED by the wrapper the `verif-hooks` feature puts around `self.inner.lock()` inside
+/// src/metrics.rs (not a text scan: whatever the method's code looks like, every `.lock()`/`.try_lock()` on the
+/// collector's mutex is counted when it happens), together with the yield points it passes. `uncovered` =
+/// methods whose acquisitions and yield points differ (a critical section the cooperative scheduler cannot see)
+/// + lock expressions in src/metrics.rs that do NOT go through the counting wrapper (`Mutex::lock(&…)`, a
+/// second mutex, …; text scan, only as a tripwire for the counter's own blind spot).
 fn lock_sites(cx: &mut Ctx) {
-    let Some(src) = repo_metrics_rs() else {
-        cx.notes.push("C16: src/metrics.rs not readable from the harness; LOCKSITES skipped".into());
-        return;
+    use ironbeam::metrics::HistogramMetric;
+    let fresh = || {
+        let mut c = MetricsCollector::new();
+        c.register(boxed("a", Val::C(1)));
+        c.register(boxed("g", Val::G(2)));
+        c
     };
-    let mut per: BTreeMap<String, u32> = BTreeMap::new();
-    let mut uncovered = vec![];
-    let mut cur = String::new();
-    let lines: Vec<&str> = src.lines().collect();
-    for (n, l) in lines.iter().enumerate() {
-        let t = l.trim_start();
-        if t.starts_with("//") {
-            continue;
-        }
-        if let Some(i) = t.find("fn ") {
-            if t.starts_with("pub fn ") || t.starts_with("fn ") || t.starts_with("pub(crate) fn ") {
-                cur = t[i + 3..].chars().take_while(|c| c.is_alphanumeric() || *c == '_').collect();
+    let dir = tempfile::tempdir().ok();
+    let path = dir.as_ref().map(|d| d.path().join("m.json").to_string_lossy().to_string()).unwrap_or_else(|| "/tmp/c16-locksites.json".into());
+    let mut rows: Vec<(&str, (u32, u32))> = vec![];
+    let c = fresh();
+    rows.push(("elapsed", counted(|| { let _ = c.elapsed(); })));
+    rows.push(("increment_counter/absent", counted(|| c.increment_counter("zz", 1))));
+    rows.push(("increment_counter/counter", counted(|| c.increment_counter("a", 1))));
+    rows.push(("increment_counter/other", counted(|| c.increment_counter("g", 1))));
+    rows.push(("print", counted(|| c.print())));
+    rows.push(("record_end", counted(|| c.record_end())));
+    rows.push(("record_start", counted(|| c.record_start())));
+    let mut h = c.clone();
+    rows.push(("register", counted(|| h.register(Box::new(HistogramMetric::new("h"))))));
+    rows.push(("register_all/2", counted(|| h.register_all(vec![boxed("r1", Val::C(1)), boxed("r2", Val::G(1))]))));
+    rows.push(("save_to_file", counted(|| { let _ = c.save_to_file(&path); })));
+    rows.push(("set_counter", counted(|| c.set_counter("a", 3))));
+    rows.push(("snapshot", counted(|| { let _ = c.snapshot(); })));
+    rows.push(("to_json", counted(|| { let _ = c.to_json(); })));
+    let mut uncovered: Vec<String> = rows.iter().filter(|(_, (l, y))| l != y).map(|(m, (l, y))| format!("{m}: {l} acquisitions, {y} yield points")).collect();
+    // tripwire for what the counter cannot see: lock expressions that bypass `self.inner.lock()`
+    match repo_metrics_rs() {
+        Some(src) => {
+            let body = src.split("trait VerifCountedLock").next().unwrap_or("");
+            for (n, l) in body.lines().enumerate() {
+                let t = l.trim_start();
+                if t.starts_with("//") {
+                    continue;
+                }
+                let code = t.split("//").next().unwrap_or("");
+                let mut rest = code;
+                while let Some(i) = rest.find("lock(") {
+                    let before = &rest[..i];
+                    let counted_form = before.ends_with("self.inner.") || before.ends_with("self.inner.try_");
+                    if !counted_form {
+                        uncovered.push(format!("line {}: lock expression that is not `self.inner.lock()`: {}", n + 1, t));
+                    }
+                    rest = &rest[i + 5..];
+                }
+            }
+            if !src.contains("impl VerifCountedLock for Arc<Mutex<MetricsCollectorInner>>") {
+                uncovered.push("the counting wrapper (hook) is missing from src/metrics.rs".into());
             }
         }
-        if t.contains(".lock()") || t.contains(".try_lock()") {
-            *per.entry(cur.clone()).or_insert(0) += 1;
-            let prev = lines[..n].iter().rev().map(|x| x.trim()).find(|x| !x.is_empty() && !x.starts_with("#[cfg")).unwrap_or("");
-            if !prev.contains(&format!("yield_point(\"metrics:{cur}:")) {
-                uncovered.push(format!("{cur}@line{}", n + 1));
+        None => cx.notes.push("C16: src/metrics.rs not readable from the harness; the textual tripwire of LOCKSITES was skipped (the counted acquisitions were compared)".into()),
+    }
+    // a `try_lock` anywhere in the collector or in the pipeline's metric calls silently SKIPS the update under
+    // contention (seeded change C16-b: `record_metrics_start/end` with `try_lock` lose a stamp when another thread
+    // holds the graph lock) — invisible to the cooperative scheduler, whose threads never pause while holding a lock
+    for file in ["src/metrics.rs", "src/pipeline.rs"] {
+        if let Some(src) = repo_src(file) {
+            let body = src.split("trait VerifCountedLock").next().unwrap_or("");
+            for (n, l) in body.lines().enumerate() {
+                let t = l.trim_start();
+                if !t.starts_with("//") && t.split("//").next().unwrap_or("").contains("try_lock") {
+                    uncovered.push(format!("{file} line {}: try_lock (an update that is skipped when the lock is contended): {}", n + 1, t));
+                }
             }
         }
     }
     let real = format!(
         "sites={} uncovered={}",
-        join_or(per.iter().map(|(k, v)| format!("{k}:{v}")).collect(), ","),
+        join_or(rows.iter().map(|(k, (l, _))| format!("{k}:{l}")).collect(), ","),
         uncovered.len()
     );
     let i = cx.case("LOCKSITES".into(), real, false);
-    cx.count_n("locksites:locks-in-metrics.rs", per.values().map(|v| u64::from(*v)).sum());
+    cx.count_n("locksites:guard-acquisitions-counted", rows.iter().map(|(_, (l, _))| u64::from(*l)).sum());
     if !uncovered.is_empty() {
-        cx.oracle_fail(i, "lock-without-yield-point", format!("lock acquisitions without a preceding yield point: {uncovered:?}"));
+        cx.oracle_fail(i, "lock-acquisition-without-yield-point", format!("critical sections the cooperative scheduler cannot see: {uncovered:?}"));
+    }
+}
+
+// ---------------------------------------------------------------------------------------------
+// MJSON: the export over the whole value space
+// ---------------------------------------------------------------------------------------------
+
+use ironbeam::metrics::HistogramMetric;
+use serde_json::Value as JV;
+
+/// a user `impl Metric` with an arbitrary JSON value and an optional description
+struct UserMetric {
+    name: String,
+    value: JV,
+    desc: Option<String>,
+}
+impl Metric for UserMetric {
+    fn name(&self) -> &str { &self.name }
+    fn value(&self) -> JV { self.value.clone() }
+    fn description(&self) -> Option<&str> { self.desc.as_deref() }
+    fn as_any(&self) -> &dyn std::any::Any { self }
+}
+
+#[derive(Clone, Debug)]
+enum JM {
+    C(u64),
+    G(f64, Option<String>),
+    H(Vec<f64>, Option<String>),
+    U(JV, Option<String>),
+}
+#[derive(Clone, Debug)]
+enum JOp {
+    Reg(String, JM),
+    Set(String, u64),
+    Inc(String, u64),
+    St,
+    En,
+}
+
+fn name_hex(s: &str) -> String {
+    if s.is_empty() { "_".into() } else { crate::ctx::hex(s.as_bytes()) }
+}
+fn desc_tok(d: Option<&str>) -> String {
+    match d {
+        None => "-".into(),
+        Some(d) => format!("d{}", crate::ctx::hex(d.as_bytes())),
+    }
+}
+/// canonical rendering of a JSON value: floats by their bits, strings and member names in hex, members sorted
+fn val_tok(v: &JV) -> String {
+    match v {
+        JV::Null => "n".into(),
+        JV::Bool(b) => if *b { "bt".into() } else { "bf".into() },
+        JV::Number(n) => {
+            if let Some(u) = n.as_u64() { format!("u{u}") }
+            else if let Some(i) = n.as_i64() { format!("i{i}") }
+            else { format!("f{:016x}", n.as_f64().unwrap_or(f64::NAN).to_bits()) }
+        }
+        JV::String(s) => format!("s{}", crate::ctx::hex(s.as_bytes())),
+        JV::Array(a) => format!("[{}]", a.iter().map(val_tok).collect::<Vec<_>>().join("|")),
+        JV::Object(o) => {
+            let mut rows: Vec<String> = o.iter().map(|(k, v)| format!("{}>{}", name_hex(k), val_tok(v))).collect();
+            rows.sort();
+            format!("{{{}}}", rows.join("|"))
+        }
+    }
+}
+
+fn jm_box(name: &str, m: &JM) -> Box<dyn Metric> {
+    match m {
+        JM::C(n) => Box::new(CounterMetric::with_value(name, *n)),
+        JM::G(f, d) => {
+            let g = GaugeMetric::new(name, *f);
+            Box::new(match d { Some(d) => g.with_description(d.clone()), None => g })
+        }
+        JM::H(vs, d) => {
+            // half of the values through `with_values`, the rest through `record`
+            let k = vs.len() / 2;
+            let mut h = HistogramMetric::with_values(name, vs[..k].to_vec());
+            for v in &vs[k..] {
+                h.record(*v);
+            }
+            Box::new(match d { Some(d) => h.with_description(d.clone()), None => h })
+        }
+        JM::U(v, d) => Box::new(UserMetric { name: name.to_string(), value: v.clone(), desc: d.clone() }),
+    }
+}
+
+fn enc_jop(o: &JOp) -> String {
+    match o {
+        JOp::Reg(k, JM::C(n)) => format!("rc:{}:{n}", name_hex(k)),
+        JOp::Reg(k, JM::G(f, d)) => format!("rg:{}:{:016x}:{}", name_hex(k), f.to_bits(), desc_tok(d.as_deref())),
+        JOp::Reg(k, JM::H(vs, d)) => format!(
+            "rh:{}:{}:{}",
+            name_hex(k),
+            if vs.is_empty() { "_".into() } else { vs.iter().map(|v| format!("{:016x}", v.to_bits())).collect::<Vec<_>>().join(".") },
+            desc_tok(d.as_deref())
+        ),
+        JOp::Reg(k, JM::U(v, d)) => format!("ru:{}:{}:{}", name_hex(k), val_tok(v), desc_tok(d.as_deref())),
+        JOp::Set(k, n) => format!("s:{}:{n}", name_hex(k)),
+        JOp::Inc(k, n) => format!("i:{}:{n}", name_hex(k)),
+        JOp::St => "st".into(),
+        JOp::En => "en".into(),
+    }
+}
+
+/// what the property says the export must show for one name: the metric's own `value()` and `description()`
+#[derive(Clone, Debug)]
+struct Expect {
+    value: JV,
+    desc: Option<String>,
+    counter: Option<u64>,
+    /// for a histogram: the statistics re-computed here from the recorded values
+    hist: Option<JV>,
+}
+
+/// the standard library's start value of `Iterator::sum::<f64>()` (0.0 or -0.0, depending on the toolchain)
+fn sum0() -> f64 {
+    Vec::<f64>::new().iter().sum::<f64>()
+}
+
+/// plain re-computation of the histogram statistics (order by `total_cmp` through an integer key)
+fn hist_expect(vs: &[f64]) -> JV {
+    if vs.is_empty() {
+        return serde_json::json!({"count": 0, "sum": 0.0, "mean": 0.0, "min": 0.0, "max": 0.0, "p50": 0.0, "p95": 0.0, "p99": 0.0});
+    }
+    let key = |f: &f64| { let b = f.to_bits(); if b >> 63 == 1 { !b } else { b | (1 << 63) } };
+    let mut sorted = vs.to_vec();
+    sorted.sort_by_key(key);
+    let n = sorted.len();
+    let mut sum = sum0();
+    for x in &sorted {
+        sum += *x;
+    }
+    serde_json::json!({"count": n, "sum": sum, "mean": sum / n as f64, "min": sorted[0], "max": sorted[n - 1],
+        "p50": sorted[n / 2], "p95": sorted[n * 95 / 100], "p99": sorted[n * 99 / 100]})
+}
+
+fn mjson(cx: &mut Ctx, ops: &[JOp], what: &str) {
+    let req = format!("MJSON sum0={:016x} ops={}", sum0().to_bits(), join_or(ops.iter().map(enc_jop).collect(), ";"));
+    // expectation from the REQUEST alone (never from snapshot())
+    let mut exp: BTreeMap<String, Expect> = BTreeMap::new();
+    let (mut st, mut en) = (false, false);
+    for o in ops {
+        match o {
+            JOp::Reg(k, m) => {
+                let twin = jm_box(k, m);
+                let value = guarded(|| twin.value()).unwrap_or(JV::String("<value() panicked>".into()));
+                let hist = if let JM::H(vs, _) = m { Some(hist_expect(vs)) } else { None };
+                exp.insert(k.clone(), Expect { value, desc: twin.description().map(String::from), counter: if let JM::C(n) = m { Some(*n) } else { None }, hist });
+            }
+            JOp::Set(k, n) => { exp.insert(k.clone(), Expect { value: serde_json::json!(n), desc: None, counter: Some(*n), hist: None }); }
+            JOp::Inc(k, n) => {
+                match exp.get(k).map(|e| e.counter) {
+                    None => { exp.insert(k.clone(), Expect { value: serde_json::json!(n), desc: None, counter: Some(*n), hist: None }); }
+                    Some(Some(c)) => { let s = c + n; exp.insert(k.clone(), Expect { value: serde_json::json!(s), desc: None, counter: Some(s), hist: None }); }
+                    Some(None) => {} // a metric of another type is left alone
+                }
+            }
+            JOp::St => st = true,
+            JOp::En => en = true,
+        }
+    }
+    // the real calls
+    let ops2 = ops.to_vec();
+    let run = guarded(move || {
+        let c = MetricsCollector::new();
+        for o in &ops2 {
+            match o {
+                JOp::Reg(k, m) => { let mut h = c.clone(); h.register(jm_box(k, m)); }
+                JOp::Set(k, n) => c.set_counter(k, *n),
+                JOp::Inc(k, n) => c.increment_counter(k, *n),
+                JOp::St => c.record_start(),
+                JOp::En => c.record_end(),
+            }
+        }
+        let snap = c.snapshot();
+        let el = c.elapsed();
+        let j = c.to_json();
+        let dir = tempfile::tempdir().map_err(|e| format!("tempdir: {e}"));
+        let file: Result<JV, String> = dir.and_then(|d| {
+            let path = d.path().join("metrics.json");
+            let ps = path.to_string_lossy().to_string();
+            c.save_to_file(&ps).map_err(|e| format!("save_to_file: {e}"))?;
+            let text = std::fs::read_to_string(&path).map_err(|e| format!("read: {e}"))?;
+            serde_json::from_str::<JV>(&text).map_err(|e| format!("parse: {e}"))
+        });
+        (snap, el, j, file)
+    });
+    let render_doc = |j: &JV| -> String {
+        let empty = serde_json::Map::new();
+        let obj = j.as_object().unwrap_or(&empty);
+        let mut rows: Vec<String> = obj
+            .iter()
+            .map(|(k, e)| {
+                let v = e.get("value").cloned().unwrap_or(JV::String("<no value member>".into()));
+                let d = e.get("description").and_then(|d| d.as_str());
+                let shown = if k == EXEC_KEY && is_exec_entry(e) { "T".to_string() } else { val_tok(&v) };
+                format!("{}={}~{}", name_hex(k), shown, desc_tok(d))
+            })
+            .collect();
+        rows.sort();
+        join_or(rows, ",")
+    };
+    let (snap, el, j, file) = match run {
+        Ok(x) => x,
+        Err(msg) => {
+            let i = cx.case(req, "PANIC".into(), true);
+            tick(cx);
+            cx.count(&format!("mjson:{what}"));
+            cx.oracle_fail(i, "export-panicked", format!("registering the metrics of the request and reading snapshot()/to_json()/save_to_file() panicked: {msg}"));
+            return;
+        }
+    };
+    let mut srows: Vec<String> = snap.iter().map(|(k, v)| format!("{}={}", name_hex(k), val_tok(v))).collect();
+    srows.sort();
+    let real = format!(
+        "snap={} json={} file={}",
+        join_or(srows, ","),
+        render_doc(&j),
+        match &file { Ok(f) => render_doc(f), Err(e) => format!("ERR:{}", e.replace([' ', ',', '\n'], "_")) }
+    );
+    let i = cx.case(req, real, exp.len() >= 2);
+    tick(cx);
+    cx.count(&format!("mjson:{what}"));
+    cx.count(&format!("mjson:metrics={}", match exp.len() { 0 => "0", 1 => "1", 2..=4 => "2-4", _ => "5+" }));
+    for o in ops {
+        if let JOp::Reg(_, m) = o {
+            cx.count(match m {
+                JM::C(_) => "mjson:kind:counter",
+                JM::G(f, _) if f.is_nan() => "mjson:kind:gauge-nan",
+                JM::G(f, _) if f.is_infinite() => "mjson:kind:gauge-inf",
+                JM::G(..) => "mjson:kind:gauge-finite",
+                JM::H(v, _) if v.is_empty() => "mjson:kind:hist-empty",
+                JM::H(v, _) if v.len() == 1 => "mjson:kind:hist-1",
+                JM::H(v, _) if v.iter().any(|x| x.is_nan()) => "mjson:kind:hist-with-nan",
+                JM::H(..) => "mjson:kind:hist-many",
+                JM::U(v, _) if v.is_null() => "mjson:kind:user-null",
+                JM::U(v, _) if v.is_object() => "mjson:kind:user-object",
+                JM::U(..) => "mjson:kind:user-other",
+            });
+        }
+    }
+    // ---- the property's statement about the export, evaluated on the real output
+    let mut fails: Vec<(&'static str, String)> = vec![];
+    let empty = serde_json::Map::new();
+    let obj = j.as_object().unwrap_or(&empty);
+    if !j.is_object() {
+        fails.push(("json-missing-registered-key", format!("to_json() is not an object: {j}")));
+    }
+    let both = st && en;
+    for (k, e) in &exp {
+        match obj.get(k) {
+            None => fails.push(("json-missing-registered-key", format!("{k:?} was registered but to_json() keys = {:?}", obj.keys().collect::<Vec<_>>()))),
+            Some(m) => {
+                if both && k == EXEC_KEY && is_exec_entry(m) {
+                    fails.push(("json-user-metric-shadowed-by-execution-time", format!("{k:?} = {} was registered but to_json()[{k:?}] is the execution time {m}", e.value)));
+                    continue;
+                }
+                let v = m.get("value");
+                if v.map(val_tok) != Some(val_tok(&e.value)) {
+                    fails.push(("json-value-differs-from-registered-metric", format!("{k:?}: the metric's value() is {}, to_json()[{k:?}] = {m}", e.value)));
+                }
+                let d = m.get("description");
+                if d.and_then(|d| d.as_str()) != e.desc.as_deref() || (d.is_some() && e.desc.is_none()) {
+                    fails.push(("json-description-differs", format!("{k:?}: the metric's description() is {:?}, to_json()[{k:?}] = {m}", e.desc)));
+                }
+                if let Some(mo) = m.as_object() {
+                    if mo.keys().any(|x| x != "value" && x != "description") {
+                        fails.push(("json-has-unregistered-member", format!("to_json()[{k:?}] = {m} has members other than value/description")));
+                    }
+                }
+            }
+        }
+    }
+    for (k, m) in obj {
+        if !exp.contains_key(k) && !(both && k == EXEC_KEY && is_exec_entry(m)) {
+            fails.push(("json-has-unregistered-member", format!("to_json() has {k:?} = {m}, which was never registered")));
+        }
+    }
+    if both {
+        match obj.get(EXEC_KEY) {
+            Some(m) if is_exec_entry(m) => {
+                if m.get("value").and_then(|v| v.as_u64()) != el.map(|d| d.as_millis() as u64) {
+                    fails.push(("json-execution-time-differs-from-elapsed", format!("to_json()[execution_time_ms] = {m}, elapsed() = {el:?}")));
+                }
+            }
+            _ => fails.push(("json-execution-time-missing", format!("both stamps are set (elapsed() = {el:?}) but to_json() has no execution-time member"))),
+        }
+    }
+    if both != el.is_some() {
+        fails.push(("elapsed-missing-after-success", format!("record_start called: {st}, record_end called: {en}, elapsed() = {el:?}")));
+    }
+    for (k, e) in &exp {
+        if let Some(want) = &e.hist {
+            if val_tok(&e.value) != val_tok(want) {
+                fails.push(("histogram-stats-wrong", format!("{k:?}: HistogramMetric::value() = {}, plain re-computation = {want}", e.value)));
+            }
+        }
+    }
+    let snap_keys: BTreeSet<&String> = snap.keys().collect();
+    let exp_keys: BTreeSet<&String> = exp.keys().collect();
+    if snap_keys != exp_keys || exp.iter().any(|(k, e)| snap.get(k).map(val_tok) != Some(val_tok(&e.value))) {
+        fails.push(("snapshot-differs-from-registered-metrics", format!("snapshot() = {snap:?}, registered: {:?}", exp.iter().map(|(k, e)| (k, &e.value)).collect::<Vec<_>>())));
+    }
+    match &file {
+        Err(e) => fails.push(("save-to-file-failed", e.clone())),
+        Ok(f) => {
+            // the two calls read the clock-free state; execution_time_ms is a stored pair of stamps, so it is equal too
+            if render_doc(f) != render_doc(&j) || f.as_object().map(|o| o.len()) != Some(obj.len()) {
+                fails.push(("save-to-file-differs-from-to-json", format!("file: {f}, to_json(): {j}")));
+            }
+        }
+    }
+    // a listed known finding must not mask another failure of the same case: report it last
+    fails.sort_by_key(|f| f.0 == "json-user-metric-shadowed-by-execution-time");
+    let mut seen = HashSet::new();
+    for (sig, d) in fails {
+        if seen.insert(sig) {
+            cx.oracle_fail(i, sig, d);
+        }
+    }
+}
+
+const JNAMES: [&str; 22] = [
+    "", "A", "a", " a ", "a ", "\u{e9}", "e\u{301}", "a.b", "Rows", "rows", "ROWS", " rows", "execution_time_ms", "Execution_Time_Ms",
+    "a:b", "a,b", "\u{540d}\u{524d}", "a\nb", "value", "description", "a\"b", "\u{1f600}",
+];
+const JDESCS: [&str; 5] = ["", "rows read", "d\u{e9}bit", "Total pipeline execution time in milliseconds", "a b,c:d"];
+
+fn gen_f64(cx: &mut Ctx, allow_nan: bool) -> f64 {
+    let pool = [1.5, -0.0, 0.0, f64::INFINITY, f64::NEG_INFINITY, 1e300, -1e300, f64::MAX, f64::MIN_POSITIVE, 5e-324, -2.5, 3.0, 0.1, 1e-9, 123456789.125];
+    match cx.rng.below(10) {
+        0 if allow_nan => *cx.rng.pick(&[f64::NAN, -f64::NAN, f64::from_bits(0x7ff0_0000_0000_0001), f64::from_bits(0xfff8_0000_dead_beef)]),
+        0..=5 => *cx.rng.pick(&pool),
+        6 | 7 => cx.rng.range(-50, 50) as f64 / 4.0,
+        _ => {
+            let f = f64::from_bits(cx.rng.next_u64());
+            if f.is_nan() && !allow_nan { 7.25 } else { f }
+        }
+    }
+}
+fn gen_json(cx: &mut Ctx, depth: usize) -> JV {
+    match cx.rng.below(if depth == 0 { 7 } else { 5 }) {
+        0 => JV::Null,
+        1 => serde_json::json!(cx.rng.next_u64() >> cx.rng.below(64)),
+        2 => serde_json::json!(-(cx.rng.below(1000) as i64) - 1),
+        3 => { let f = gen_f64(cx, false); if f.is_finite() { serde_json::json!(f) } else { JV::Bool(cx.rng.chance(1, 2)) } }
+        4 => JV::String((*cx.rng.pick(&JNAMES)).to_string()),
+        5 => {
+            let n = cx.rng.below(4);
+            JV::Array((0..n).map(|_| gen_json(cx, depth + 1)).collect())
+        }
+        _ => {
+            let n = cx.rng.below(4);
+            let mut m = serde_json::Map::new();
+            for _ in 0..n {
+                let k = (*cx.rng.pick(&JNAMES)).to_string();
+                let v = gen_json(cx, depth + 1);
+                m.insert(k, v);
+            }
+            JV::Object(m)
+        }
+    }
+}
+fn gen_desc(cx: &mut Ctx) -> Option<String> {
+    if cx.rng.chance(1, 2) { None } else { Some((*cx.rng.pick(&JDESCS)).to_string()) }
+}
+fn gen_jm(cx: &mut Ctx) -> JM {
+    match cx.rng.below(10) {
+        0 | 1 => JM::C(if cx.rng.chance(1, 4) { cx.rng.next_u64() >> cx.rng.below(64) } else { cx.rng.below(100) as u64 }),
+        2 | 3 | 4 => { let f = gen_f64(cx, true); JM::G(f, gen_desc(cx)) }
+        5 | 6 | 7 => {
+            let n = match cx.rng.below(8) { 0 => 0, 1 => 1, 2 => 2, 3 => 21 + cx.rng.below(20), 4 => 100 + cx.rng.below(30), _ => 2 + cx.rng.below(12) };
+            let nan = cx.rng.chance(1, 4);
+            let small = cx.rng.chance(1, 2);
+            let vs = (0..n).map(|_| if small { cx.rng.range(-8, 8) as f64 / 2.0 + if nan && cx.rng.chance(1, 5) { f64::NAN } else { 0.0 } } else { gen_f64(cx, nan) }).collect();
+            JM::H(vs, gen_desc(cx))
+        }
+        _ => { let v = gen_json(cx, 0); JM::U(v, gen_desc(cx)) }
+    }
+}
+fn gen_jops(cx: &mut Ctx) -> Vec<JOp> {
+    let n = 1 + cx.rng.below(7);
+    // a few names per case so that replacements and collisions-by-case happen
+    let k = 1 + cx.rng.below(5);
+    let names: Vec<String> = (0..k).map(|_| (*cx.rng.pick(&JNAMES)).to_string()).collect();
+    let mut ops: Vec<JOp> = (0..n)
+        .map(|_| {
+            let name = cx.rng.pick(&names).clone();
+            match cx.rng.below(10) {
+                0 => JOp::Set(name, cx.rng.below(1000) as u64),
+                1 | 2 => JOp::Inc(name, 1 + cx.rng.below(9) as u64),
+                _ => JOp::Reg(name, gen_jm(cx)),
+            }
+        })
+        .collect();
+    match cx.rng.below(6) {
+        0 => ops.push(JOp::St),
+        1 => ops.push(JOp::En),
+        2 | 3 => {
+            let at = cx.rng.below(ops.len() + 1);
+            ops.insert(at, JOp::St);
+            ops.push(JOp::En);
+        }
+        _ => {}
+    }
+    ops
+}
+
+fn mjson_block(cx: &mut Ctx) {
+    let s = |x: &str| x.to_string();
+    let d = |x: &str| Some(x.to_string());
+    // (1) corpus: the value space named by the audit, one metric kind / name at a time and all together
+    let nan33: Vec<f64> = {
+        // the reproduction of defect #20: 33 recorded values, 8 of them NaN (the pinned-commit sort panicked)
+        let mut seed = 12345u64;
+        (0..33).map(|_| { seed ^= seed << 13; seed ^= seed >> 7; seed ^= seed << 17; if seed % 4 == 0 { f64::NAN } else { (seed % 1000) as f64 } }).collect()
+    };
+    let singles: Vec<JOp> = vec![
+        JOp::Reg(s("h0"), JM::H(vec![], None)),
+        JOp::Reg(s("h1"), JM::H(vec![2.5], d("one value"))),
+        JOp::Reg(s("hm"), JM::H((1..=100).rev().map(f64::from).collect(), None)),
+        JOp::Reg(s("hz"), JM::H(vec![0.0, -0.0, 0.0, -0.0], None)),
+        JOp::Reg(s("hneg0"), JM::H(vec![-0.0], None)),
+        JOp::Reg(s("hinf"), JM::H(vec![f64::INFINITY, 1.0, f64::NEG_INFINITY], None)),
+        JOp::Reg(s("hbig"), JM::H(vec![f64::MAX, f64::MAX, 1.0], None)),
+        JOp::Reg(s("hnan"), JM::H(vec![1.0, f64::NAN, 3.0], None)),
+        JOp::Reg(s("hnan33"), JM::H(nan33, d("latency"))),
+        JOp::Reg(s("g"), JM::G(1.5, None)),
+        JOp::Reg(s("gnan"), JM::G(f64::NAN, None)),
+        JOp::Reg(s("ginf"), JM::G(f64::INFINITY, d("ratio"))),
+        JOp::Reg(s("gninf"), JM::G(f64::NEG_INFINITY, None)),
+        JOp::Reg(s("gnz"), JM::G(-0.0, None)),
+        JOp::Reg(s("gint"), JM::G(3.0, d(""))),
+        JOp::Reg(s("uobj"), JM::U(serde_json::json!({"a": 1, "b": [1.5, null, "x"], "": {"c": -2}}), d("a user metric"))),
+        JOp::Reg(s("unull"), JM::U(JV::Null, d("null-valued"))),
+        JOp::Reg(s("unull2"), JM::U(JV::Null, None)),
+        JOp::Reg(s("ustr"), JM::U(serde_json::json!("text"), None)),
+        JOp::Reg(s("ubig"), JM::U(serde_json::json!(u64::MAX), None)),
+        JOp::Reg(s("c"), JM::C(u64::MAX)),
+        JOp::Reg(s("c0"), JM::C(0)),
+    ];
+    for o in &singles {
+        mjson(cx, &[o.clone()], "corpus");
+        mjson(cx, &[JOp::St, o.clone(), JOp::En], "corpus");
+    }
+    mjson(cx, &singles, "corpus");
+    for name in JNAMES {
+        mjson(cx, &[JOp::Reg(s(name), JM::C(7))], "corpus-name");
+        mjson(cx, &[JOp::Set(s(name), 3), JOp::Inc(s(name), 4), JOp::St, JOp::En], "corpus-name");
+    }
+    // every name at once (no name collapses into another), with every way of creating a metric
+    let all: Vec<JOp> = JNAMES.iter().enumerate().map(|(i, n)| match i % 4 {
+        0 => JOp::Reg(s(n), JM::C(i as u64)),
+        1 => JOp::Set(s(n), i as u64),
+        2 => JOp::Inc(s(n), i as u64),
+        _ => JOp::Reg(s(n), JM::G(i as f64 + 0.5, d(n))),
+    }).collect();
+    mjson(cx, &all, "corpus-name");
+    mjson(cx, &[JOp::Reg(s("Rows"), JM::C(1)), JOp::Reg(s("rows"), JM::C(2)), JOp::Reg(s(" rows"), JM::C(3)), JOp::Inc(s("ROWS"), 4)], "corpus-name");
+    // increment on a non-counter is ignored; replace a counter by a gauge and back
+    mjson(cx, &[JOp::Reg(s("x"), JM::G(2.0, None)), JOp::Inc(s("x"), 5), JOp::Reg(s("y"), JM::C(1)), JOp::Inc(s("y"), 5), JOp::Reg(s("y"), JM::H(vec![1.0], None)), JOp::Inc(s("y"), 1), JOp::Set(s("x"), 9), JOp::Inc(s("x"), 1)], "corpus");
+    mjson(cx, &[], "corpus");
+    mjson(cx, &[JOp::St], "corpus");
+    mjson(cx, &[JOp::En, JOp::St], "corpus");
+    // the known finding, through every kind of metric
+    mjson(cx, &[JOp::Reg(s(EXEC_KEY), JM::G(f64::NAN, None)), JOp::St, JOp::En], "corpus");
+    mjson(cx, &[JOp::St, JOp::En, JOp::Reg(s(EXEC_KEY), JM::U(JV::Null, d(EXEC_DESC)))], "corpus");
+    // (2) random
+    for _ in 0..cx.budget(350, 6000) {
+        let ops = gen_jops(cx);
+        mjson(cx, &ops, "random");
+    }
+}
+
+// ---------------------------------------------------------------------------------------------
+// MMID: the user's handle / the slot while the engine runs
+// ---------------------------------------------------------------------------------------------
+
+#[derive(Clone, Copy, Debug, PartialEq, Eq)]
+enum Mid {
+    Op(Op),
+    Take,
+}
+
+fn mmid_attempt(mid: &[Mid], mode: PMode, secs: u64) -> Option<(Outcome, MetricsCollector, Pipeline)> {
+    let n0 = 5i64;
+    let p = Pipeline::default();
+    let coll = MetricsCollector::new();
+    p.set_metrics(coll.clone());
+    let (p2, p3, c2) = (p.clone(), p.clone(), coll.clone());
+    let done = Arc::new(std::sync::atomic::AtomicBool::new(false));
+    let mid2 = mid.to_vec();
+    let out = outcome_of(pipe::with_watchdog(secs, move || {
+        let c = from_vec(&p2, vec![V::I(n0)]).map(move |v: &V| {
+            if !done.swap(true, std::sync::atomic::Ordering::SeqCst) {
+                for ev in &mid2 {
+                    match ev {
+                        Mid::Op(op) => apply(&c2, op),
+                        Mid::Take => { let _ = p3.take_metrics(); }
+                    }
+                }
+            }
+            Fn_::Add(1).eval(v)
+        });
+        pipe::collect(pipe::Coll::T(c), mode)
+    }));
+    if matches!(out, Outcome::Hang) { None } else { Some((out, coll, p)) }
+}
+
+fn mmid(cx: &mut Ctx, mid: &[Mid], mode: PMode) {
+    let prog = PProg { shape: Shape::T, src: vec![V::I(5)], steps: vec![Step::Map(Fn_::Add(1))] };
+    let mid_s = join_or(mid.iter().map(|m| match m { Mid::Op(o) => enc_op(o), Mid::Take => "take".into() }).collect(), ",");
+    let req = format!("MMID mid={mid_s} {}", prog_text(&prog, mode));
+    let mut got = mmid_attempt(mid, mode, 10);
+    progress();
+    if got.is_none() {
+        settle();
+        got = mmid_attempt(mid, mode, 40);
+        progress();
+    }
+    let Some((out, coll, p)) = got else {
+        let i = cx.case(req, "HANG".into(), true);
+        tick(cx);
+        cx.oracle_fail(i, "run-does-not-terminate", format!("a run whose closure does [{mid_s}] on the user's handle / the pipeline did not return within 10 s nor, run again from scratch, within 40 s"));
+        return;
+    };
+    let res = pipe::outcome_answer(&out, "seq");
+    let att = p.get_metrics().is_some();
+    let el = coll.elapsed().is_some();
+    let j = json_obs(&coll);
+    let snap = canon_snapshot(&coll);
+    coll.record_end();
+    let start = coll.elapsed().is_some();
+    let b = |x: bool| if x { "T" } else { "F" };
+    let real = format!("att={} el={} start={} snap={} json={} res= {res}", b(att), b(el), b(start), snap, j.canon);
+    let i = cx.case(req, real, !mid.is_empty());
+    tick(cx);
+    cx.count(&format!("mmid:{}", if mid.contains(&Mid::Take) { "with-take" } else { "without-take" }));
+    let base = pipe::ref_answer(&pipe::reference(&prog), "seq");
+    if res != base {
+        cx.oracle_fail(i, "collector-changed-result", format!("result {res}, plain-vector reference {base} (closure did [{mid_s}] on the collector / slot)"));
+    }
+    let writes_stamp = mid.iter().any(|m| matches!(m, Mid::Op(Op::St) | Mid::Op(Op::En)));
+    if !mid.contains(&Mid::Take) && !writes_stamp && res.starts_with("OK") && !el {
+        cx.oracle_fail(i, "elapsed-missing-after-success", format!("the run succeeded with the collector attached throughout, but the user's handle has elapsed() = None (closure did [{mid_s}])"));
+    }
+    if let Some((sig, d)) = j.fail {
+        cx.oracle_fail(i, sig, d);
+    }
+}
+
+fn mmid_block(cx: &mut Ctx) {
+    let fixed: Vec<Vec<Mid>> = vec![
+        vec![], vec![Mid::Take], vec![Mid::Op(Op::Inc("a", 1))], vec![Mid::Op(Op::Set("a", 5)), Mid::Op(Op::RegC("b", 2))],
+        vec![Mid::Take, Mid::Op(Op::Inc("a", 1))], vec![Mid::Op(Op::Inc("a", 1)), Mid::Take], vec![Mid::Op(Op::St)], vec![Mid::Op(Op::En)],
+        vec![Mid::Op(Op::El), Mid::Op(Op::Js), Mid::Op(Op::Sn)], vec![Mid::Op(Op::RegG("a", 3)), Mid::Op(Op::Inc("a", 2))],
+        vec![Mid::Take, Mid::Take], vec![Mid::Op(Op::Set("execution_time_ms", 9))],
+    ];
+    for mid in &fixed {
+        for mode in [PMode::Seq, PMode::Par(2)] {
+            mmid(cx, mid, mode);
+        }
+    }
+    for _ in 0..cx.budget(30, 300) {
+        let n = cx.rng.below(4);
+        let mid: Vec<Mid> = (0..n).map(|_| if cx.rng.chance(1, 5) { Mid::Take } else { Mid::Op(random_op(cx)) }).collect();
+        let mode = if cx.rng.chance(1, 2) { PMode::Seq } else { PMode::Par(1 + cx.rng.below(3)) };
+        mmid(cx, &mid, mode);
+    }
+}
+
+// ---------------------------------------------------------------------------------------------
+// MHELD / MCONTEND: the stamps of a run whose pipeline lock is CONTENDED
+// ---------------------------------------------------------------------------------------------
+
+/// One run whose `record_metrics_start` (`which = "start"`) or `record_metrics_end` (`"end"`) meets a HELD
+/// pipeline graph lock: another thread holds it (hook `Pipeline::verif_with_graph_lock_held`) from before the
+/// call until ~30 ms later. The code must WAIT for the lock and stamp; a `try_lock` that gives up loses the
+/// stamp. Deterministic: the runner is released only once the lock is held; if the runner is delayed by more
+/// than the holding time the lock is simply free again (no detection in that round, never a false alarm).
+fn mheld_attempt(which: &'static str, mode: PMode, secs: u64) -> Option<(Outcome, MetricsCollector)> {
+    use std::sync::mpsc::channel;
+    let n0 = 5i64;
+    let p = Pipeline::default();
+    let coll = MetricsCollector::new();
+    p.set_metrics(coll.clone());
+    let (in_exec_tx, in_exec_rx) = channel::<()>();
+    let (held_tx, held_rx) = channel::<()>();
+    let held_rx = Arc::new(Mutex::new(held_rx));
+    let in_exec_tx = Arc::new(Mutex::new(in_exec_tx));
+    let first = Arc::new(std::sync::atomic::AtomicBool::new(true));
+    let at_end = which == "end";
+    let c = {
+        let (held_rx, in_exec_tx, first) = (held_rx.clone(), in_exec_tx.clone(), first.clone());
+        from_vec(&p, vec![V::I(n0)]).map(move |v: &V| {
+            if at_end && first.swap(false, std::sync::atomic::Ordering::SeqCst) {
+                // tell the holder that the engine is running, then wait until the lock IS held
+                let _ = in_exec_tx.lock().map(|t| t.send(()));
+                let _ = held_rx.lock().map(|r| r.recv_timeout(std::time::Duration::from_secs(5)));
+            }
+            Fn_::Add(1).eval(v)
+        })
+    };
+    let hold = std::time::Duration::from_millis(30);
+    let p_holder = p.clone();
+    let (go_tx, go_rx) = channel::<()>();
+    let holder = std::thread::spawn(move || {
+        if at_end {
+            if in_exec_rx.recv_timeout(std::time::Duration::from_secs(20)).is_err() {
+                return;
+            }
+            p_holder.verif_with_graph_lock_held(|| {
+                let _ = held_tx.send(());
+                std::thread::sleep(hold);
+            });
+        } else {
+            p_holder.verif_with_graph_lock_held(|| {
+                let _ = go_tx.send(());
+                std::thread::sleep(hold);
+            });
+        }
+    });
+    if !at_end {
+        // start the run only once the lock is held
+        let _ = go_rx.recv_timeout(std::time::Duration::from_secs(20));
+    }
+    let out = outcome_of(pipe::with_watchdog(secs, move || pipe::collect(pipe::Coll::T(c), mode)));
+    let _ = holder.join();
+    if matches!(out, Outcome::Hang) { None } else { Some((out, coll)) }
+}
+
+fn mheld(cx: &mut Ctx, which: &'static str, mode: PMode) {
+    let req = format!("MHELD which={which} mode={}", mode.enc());
+    let mut got = mheld_attempt(which, mode, 15);
+    progress();
+    if got.is_none() {
+        settle();
+        got = mheld_attempt(which, mode, 60);
+        progress();
+    }
+    let Some((out, coll)) = got else {
+        let i = cx.case(req, "HANG".into(), true);
+        tick(cx);
+        cx.oracle_fail(i, "run-does-not-terminate", format!("a run whose record_metrics_{which} met a held pipeline lock (released after 30 ms) did not return within 15 s nor, run again, within 60 s"));
+        return;
+    };
+    let res = pipe::outcome_answer(&out, "seq");
+    let el = coll.elapsed();
+    let j = coll.to_json();
+    let jt = j.get(EXEC_KEY).is_some_and(is_exec_entry);
+    let b = |x: bool| if x { "T" } else { "F" };
+    let i = cx.case(req, format!("el={} jt={} res= {res}", b(el.is_some()), b(jt)), true);
+    tick(cx);
+    cx.count(&format!("mheld:{which}"));
+    if res.starts_with("OK") && (el.is_none() || !jt) {
+        cx.oracle_fail(i, "elapsed-missing-after-success", format!("record_metrics_{which} met a pipeline lock held by another thread (released 30 ms later); the run succeeded ({res}) but elapsed() = {el:?}, to_json() = {j}: the stamp was skipped instead of waiting for the lock"));
+    }
+    if res != "OK L1 I6" {
+        cx.oracle_fail(i, "collector-changed-result", format!("result {res}, expected OK L1 I6"));
+    }
+}
+
+/// `MHELDC init=… call=<op>`: the call is made by a second thread WHILE this thread holds the collector's mutex
+/// (hook `MetricsCollector::verif_with_lock_held`; released 30 ms after the caller was started). The call must
+/// wait for the lock and take effect: a `try_lock` that gives up drops the update (design finding C16-2).
+fn mheldc(cx: &mut Ctx, init: &Init, op: Op) {
+    let req = format!("MHELDC init={} call={}", enc_init(init), enc_op(&op));
+    let run = |secs: u64| -> Option<Result<(String, bool), String>> {
+        let init = init.clone();
+        pipe::with_watchdog(secs, move || {
+            let coll = mk_collector(&init);
+            if op == Op::En {
+                coll.record_start(); // so that the end stamp under test makes elapsed() available
+            }
+            let c2 = coll.clone();
+            let (tx, rx) = std::sync::mpsc::channel::<()>();
+            let caller = std::thread::spawn(move || {
+                let _ = rx.recv_timeout(std::time::Duration::from_secs(20));
+                apply(&c2, &op);
+            });
+            coll.verif_with_lock_held(|| {
+                let _ = tx.send(());
+                std::thread::sleep(std::time::Duration::from_millis(30));
+            });
+            let _ = caller.join();
+            if op == Op::St {
+                coll.record_end(); // the start stamp under test + this end stamp = elapsed() available
+            }
+            (canon_snapshot(&coll), coll.elapsed().is_some())
+        })
+    };
+    let mut r = run(15);
+    progress();
+    if r.is_none() {
+        settle();
+        r = run(60);
+        progress();
+    }
+    let (real, fail): (String, Option<(&'static str, String)>) = match r {
+        None => ("HANG".into(), Some(("collector-call-hangs", format!("{} made while another thread held the collector lock for 30 ms did not return within 15 s nor, run again, within 60 s", enc_op(&op))))),
+        Some(Err(m)) => ("PANIC".into(), Some(("collector-panicked", m))),
+        Some(Ok((snap, el))) => {
+            // independent expectation: the same call made without any contention
+            let plain = mk_collector(init);
+            apply(&plain, &op);
+            let want = canon_snapshot(&plain);
+            let want_el = matches!(op, Op::St | Op::En);
+            let fail = if snap != want || el != want_el {
+                Some(("update-dropped-under-contention", format!("{} made while another thread held the collector lock: snapshot {snap}, elapsed available: {el}; without contention {want}, {want_el}", enc_op(&op))))
+            } else {
+                None
+            };
+            (format!("snap={snap} el={}", if el { "T" } else { "F" }), fail)
+        }
+    };
+    let i = cx.case(req, real, true);
+    tick(cx);
+    cx.count("mheldc:calls-against-a-held-collector-lock");
+    if let Some((sig, d)) = fail {
+        cx.oracle_fail(i, sig, d);
+    }
+}
+
+/// Free-running: a pipeline with a large never-executed side branch (so that `snapshot()` holds the graph lock
+/// for a while), observer threads that keep taking snapshots / reading the slot / adding nodes, and the main
+/// thread running the small branch again and again, each time with a FRESH collector. After EVERY successful
+/// run: `elapsed()` is `Some` and `execution_time_ms` is exported. A requirement, not a timing verdict: on
+/// correct code it cannot fail however loaded the machine is. Returns (runs, missing, wrong results, first detail).
+fn mcontend_body(nodes: usize, max_runs: usize, budget: std::time::Duration) -> (usize, usize, usize, Option<String>) {
+    let p = Pipeline::default();
+    let mut side = from_vec(&p, vec![0u32]);
+    for _ in 0..nodes {
+        side = side.map(|x: &u32| *x);
+    }
+    let out = from_vec(&p, vec![1i64, 2, 3, 4]).map(|x: &i64| x * 10);
+    let stop = Arc::new(std::sync::atomic::AtomicBool::new(false));
+    let observers: Vec<_> = (0..3)
+        .map(|k| {
+            let (p, stop) = (p.clone(), stop.clone());
+            std::thread::spawn(move || {
+                let mut added = 0usize;
+                while !stop.load(std::sync::atomic::Ordering::Relaxed) {
+                    match k {
+                        0 => { let _ = std::hint::black_box(p.snapshot()); }
+                        1 => { let _ = std::hint::black_box(p.get_metrics()); let _ = std::hint::black_box(p.snapshot()); }
+                        _ => {
+                            if added < 400 {
+                                let _ = from_vec(&p, vec![1u8]).map(|x: &u8| *x);
+                                added += 1;
+                            } else {
+                                let _ = std::hint::black_box(p.snapshot());
+                            }
+                        }
+                    }
+                }
+            })
+        })
+        .collect();
+    let t0 = std::time::Instant::now();
+    let (mut runs, mut missing, mut wrong) = (0usize, 0usize, 0usize);
+    let mut first = None;
+    while runs < max_runs && t0.elapsed() < budget {
+        p.set_metrics(MetricsCollector::new());
+        let got = out.clone().collect_seq();
+        let m = p.take_metrics();
+        runs += 1;
+        match (&got, &m) {
+            (Ok(v), Some(m)) => {
+                if *v != vec![10, 20, 30, 40] {
+                    wrong += 1;
+                    first.get_or_insert(format!("run {runs}: result {v:?}"));
+                }
+                let el = m.elapsed();
+                let j = m.to_json();
+                if el.is_none() || !j.get(EXEC_KEY).is_some_and(is_exec_entry) {
+                    missing += 1;
+                    first.get_or_insert(format!("run {runs}: elapsed() = {el:?}, to_json() = {j}"));
+                }
+            }
+            _ => {
+                wrong += 1;
+                first.get_or_insert(format!("run {runs}: result {:?}, collector still attached: {}", got.as_ref().map_err(|e| e.to_string()), m.is_some()));
+            }
+        }
+    }
+    stop.store(true, std::sync::atomic::Ordering::Relaxed);
+    for h in observers {
+        let _ = h.join();
+    }
+    (runs, missing, wrong, first)
+}
+
+fn mcontend(cx: &mut Ctx, nodes: usize, max_runs: usize, budget_secs: u64) {
+    let req = format!("MCONTEND nodes={nodes} observers=3");
+    let mut r = None;
+    for (attempt, secs) in [budget_secs + 30, budget_secs + 90].into_iter().enumerate() {
+        if attempt > 0 {
+            settle();
+        }
+        r = pipe::with_watchdog(secs, move || mcontend_body(nodes, max_runs, std::time::Duration::from_secs(budget_secs)));
+        progress();
+        if r.is_some() {
+            break;
+        }
+    }
+    match r {
+        None => {
+            let i = cx.case(req, "HANG".into(), true);
+            tick(cx);
+            cx.oracle_fail(i, "run-does-not-terminate", format!("runs of a small branch while 3 threads inspect / extend the same pipeline did not finish (twice, limit {} s)", budget_secs + 90));
+        }
+        Some(Err(msg)) => {
+            let i = cx.case(req, "PANIC".into(), true);
+            tick(cx);
+            cx.oracle_fail(i, "collector-panicked", msg);
+        }
+        Some(Ok((runs, missing, wrong, first))) => {
+            let i = cx.case(req, format!("missing={missing} wrong={wrong}"), true);
+            tick(cx);
+            cx.count_n("mcontend:runs-under-contention", runs as u64);
+            if missing > 0 {
+                cx.oracle_fail(i, "elapsed-missing-after-success", format!("{missing} of {runs} successful runs (fresh collector each, 3 threads taking snapshots / reading the slot / adding nodes on the same pipeline, {nodes}-node side branch) ended without both stamps: {}", first.clone().unwrap_or_default()));
+            }
+            if wrong > 0 {
+                cx.oracle_fail(i, "collector-changed-result", format!("{wrong} of {runs} runs under contention returned something else than [10, 20, 30, 40] with the collector attached: {}", first.unwrap_or_default()));
+            }
+        }
+    }
+}
+
+// ---------------------------------------------------------------------------------------------
+// FIRSTINC: two free-running threads that both start on an ABSENT name, on many fresh collectors
+// ---------------------------------------------------------------------------------------------
+
+/// Both threads walk over the same vector of fresh collectors; before round `i` each publishes `i` and spins
+/// until the other has published it too, so the two `increment_counter` calls of a round start within
+/// nanoseconds of each other on a name that does not exist yet. Returns (rounds done, rounds whose final value
+/// is not a + b, first such value).
+fn first_inc_body(rounds: usize, a: u64, b: u64, budget: std::time::Duration) -> (usize, usize, Option<String>) {
+    use std::sync::atomic::{AtomicUsize, Ordering::{Acquire, Release}};
+    let colls: Arc<Vec<MetricsCollector>> = Arc::new((0..rounds).map(|_| MetricsCollector::new()).collect());
+    let at = Arc::new([AtomicUsize::new(0), AtomicUsize::new(0)]);
+    let stop_round = Arc::new(AtomicUsize::new(rounds));
+    let t0 = std::time::Instant::now();
+    let hs: Vec<_> = [a, b]
+        .into_iter()
+        .enumerate()
+        .map(|(me, amt)| {
+            let (colls, at, stop_round) = (colls.clone(), at.clone(), stop_round.clone());
+            std::thread::spawn(move || {
+                let mut i = 0usize;
+                while i < stop_round.load(Acquire) {
+                    if me == 0 && i % 64 == 0 && t0.elapsed() > budget {
+                        // both threads stop at the same round: the other one is at most one round away
+                        stop_round.fetch_min(i + 64, Release);
+                    }
+                    at[me].store(i + 1, Release);
+                    let mut spins = 0u32;
+                    while at[1 - me].load(Acquire) < i + 1 {
+                        spins += 1;
+                        if spins < 2000 { std::hint::spin_loop(); } else { std::thread::yield_now(); }
+                    }
+                    colls[i].increment_counter("k", amt);
+                    i += 1;
+                }
+                i
+            })
+        })
+        .collect();
+    let done: Vec<usize> = hs.into_iter().map(|h| h.join().unwrap_or(0)).collect();
+    let n = done.iter().copied().min().unwrap_or(0);
+    let mut lost = 0usize;
+    let mut first = None;
+    for c in colls.iter().take(n) {
+        let v = c.snapshot().get("k").and_then(|v| v.as_u64());
+        if v != Some(a + b) {
+            lost += 1;
+            first.get_or_insert(format!("{v:?}"));
+        }
+    }
+    (n, lost, first)
+}
+
+fn first_inc(cx: &mut Ctx, rounds: usize, a: u64, b: u64, budget_secs: u64) {
+    let req = format!("FIRSTINC a={a} b={b}");
+    let mut r = None;
+    for (attempt, secs) in [budget_secs + 30, budget_secs + 90].into_iter().enumerate() {
+        if attempt > 0 {
+            settle();
+        }
+        r = pipe::with_watchdog(secs, move || first_inc_body(rounds, a, b, std::time::Duration::from_secs(budget_secs)));
+        progress();
+        if r.is_some() {
+            break;
+        }
+    }
+    match r {
+        None => {
+            let i = cx.case(req, "HANG".into(), true);
+            tick(cx);
+            cx.oracle_fail(i, "collector-call-hangs", format!("two threads incrementing an absent counter on fresh collectors did not finish (twice, limit {} s)", budget_secs + 90));
+        }
+        Some(Err(msg)) => {
+            let i = cx.case(req, "PANIC".into(), true);
+            tick(cx);
+            cx.oracle_fail(i, "collector-panicked", msg);
+        }
+        Some(Ok((n, lost, first))) => {
+            let i = cx.case(req, format!("lost={lost}"), true);
+            tick(cx);
+            cx.count_n("firstinc:fresh-collectors", n as u64);
+            if n < rounds {
+                cx.count("firstinc:stopped-by-time-budget(machine-load)");
+            }
+            if lost > 0 {
+                cx.oracle_fail(i, "lost-update-free-running", format!("two threads started increment_counter(k, {a}) / (k, {b}) together on an ABSENT name on {n} fresh collectors: {lost} ended with a value other than {} (first: {})", a + b, first.unwrap_or_default()));
+            }
+        }
     }
 }
 
@@ -1288,6 +2397,7 @@ fn smoke(cx: &mut Ctx) -> bool {
     };
     let mut r = pipe::with_watchdog(20, body);
     if r.is_none() {
+        settle();
         r = pipe::with_watchdog(60, body); // confirm: a machine stall does not repeat, a dead-lock does
     }
     let real = match &r { Some(Ok(())) => "ok", Some(Err(_)) => "PANIC", None => "HANG" };
@@ -1306,53 +2416,190 @@ fn smoke(cx: &mut Ctx) -> bool {
     }
 }
 
-/// progress of the worker thread (cases registered so far), watched by `run`
+/// progress of the worker thread (cases registered + attempts of watchdogged runs), watched by `run`
 static PROGRESS: std::sync::atomic::AtomicU64 = std::sync::atomic::AtomicU64::new(0);
+/// cases registered so far (deterministic for a seed and tier: the coordinate of a stall)
+static CASES: std::sync::atomic::AtomicU64 = std::sync::atomic::AtomicU64::new(0);
 static LAST_REQ: Mutex<String> = Mutex::new(String::new());
+/// `Some(n)` in the CONFIRMING child process: leave with exit code 0 as soon as more than `n` cases exist
+static CONFIRM_AT: std::sync::OnceLock<Option<u64>> = std::sync::OnceLock::new();
+fn confirm_at() -> Option<u64> {
+    *CONFIRM_AT.get_or_init(|| std::env::var("IBH_C16_CONFIRM_AT").ok().and_then(|v| v.parse().ok()))
+}
 fn tick(cx: &Ctx) {
     PROGRESS.fetch_add(1, std::sync::atomic::Ordering::Relaxed);
+    let n = CASES.fetch_add(1, std::sync::atomic::Ordering::Relaxed) + 1;
+    if let Some(at) = confirm_at() {
+        if n > at {
+            // the confirming re-execution got PAST the point where the first process stood still
+            std::process::exit(0);
+        }
+    }
     if let (Some(r), Ok(mut g)) = (cx.reqs.last(), LAST_REQ.try_lock()) {
         g.clear();
         g.push_str(r);
     }
 }
-/// no new case for this long = some call on the worker's own thread does not return
+/// the worker is alive although no case has been registered (between the attempts of a watchdogged run)
+fn progress() {
+    PROGRESS.fetch_add(1, std::sync::atomic::Ordering::Relaxed);
+}
+/// no progress during this many seconds IN WHICH THE MACHINE WAS RESPONSIVE = a call on the worker's own
+/// thread may not be returning (then confirmed by re-execution in a fresh process before anything is reported)
 const STALL_SECS: u64 = 240;
+/// `IBH_C16_STALL_SECS` shortens the limit (used to exercise the watchdog itself with a dead-locking mutant)
+fn stall_secs() -> u64 {
+    std::env::var("IBH_C16_STALL_SECS").ok().and_then(|v| v.parse().ok()).unwrap_or(STALL_SECS)
+}
+
+/// is some thread of this process in uninterruptible sleep (state D: waiting for a page to come back from
+/// disk, for memory reclaim, for I/O)? Then the machine is holding the process up, not the code under test.
+fn some_thread_in_d_state() -> bool {
+    let Ok(rd) = std::fs::read_dir("/proc/self/task") else { return false };
+    for e in rd.flatten() {
+        if let Ok(st) = std::fs::read_to_string(e.path().join("stat")) {
+            // "<tid> (<comm>) <state> ..." — comm may contain blanks and parentheses: take what follows the LAST ')'
+            if let Some(i) = st.rfind(')') {
+                if st[i + 1..].trim_start().starts_with('D') {
+                    return true;
+                }
+            }
+        }
+    }
+    false
+}
+
+/// Wait until the machine answers promptly again (a thread start + channel round trip within 200 ms, three
+/// times in a row), for at most two minutes: a time-out is re-executed AFTER the stall that may have caused it,
+/// not in the middle of it (stalls of this box come in storms: memory pressure, page-cache thrashing).
+fn settle() {
+    let t0 = std::time::Instant::now();
+    let mut good = 0;
+    while good < 3 && t0.elapsed().as_secs() < 120 {
+        let t = std::time::Instant::now();
+        let (tx, rx) = std::sync::mpsc::channel::<u64>();
+        let h = std::thread::spawn(move || { let _ = tx.send(std::hint::black_box((0..20_000u64).sum())); });
+        let ok = rx.recv_timeout(std::time::Duration::from_secs(5)).is_ok() && t.elapsed().as_millis() < 200 && !some_thread_in_d_state();
+        let _ = h.join();
+        if ok { good += 1; } else { good = 0; std::thread::sleep(std::time::Duration::from_millis(500)); }
+        progress();
+    }
+}
+
+fn tier_name(t: crate::ctx::Tier) -> &'static str {
+    match t { crate::ctx::Tier::Quick => "quick", crate::ctx::Tier::Thorough => "thorough", crate::ctx::Tier::Search => "search" }
+}
+
+/// Re-execute the whole check (same seed, same tier) in a FRESH process up to the case at which this process
+/// stands still. `Some(true)`: the fresh process stands still at the same case (a call that does not return:
+/// deterministic); `Some(false)`: it got past that case, or stalled elsewhere (this machine stalls: not a
+/// verdict); `None`: this process moved on by itself meanwhile, or the re-execution could not be started.
+fn confirm_stall_in_fresh_process(prop: &str, seed: u64, tier: crate::ctx::Tier, at_cases: u64, progress_then: u64) -> Option<bool> {
+    let exe = std::env::current_exe().ok()?;
+    let dir = tempfile::tempdir().ok()?;
+    let mut child = std::process::Command::new(exe)
+        .args([prop, "--tier", tier_name(tier), "--seed", &seed.to_string(), "--out"])
+        .arg(dir.path())
+        .env("IBH_C16_CONFIRM_AT", at_cases.to_string())
+        .stdin(std::process::Stdio::null())
+        .stdout(std::process::Stdio::null())
+        .stderr(std::process::Stdio::null())
+        .spawn()
+        .ok()?;
+    let t0 = std::time::Instant::now();
+    loop {
+        std::thread::sleep(std::time::Duration::from_secs(1));
+        if PROGRESS.load(std::sync::atomic::Ordering::Relaxed) != progress_then {
+            let _ = child.kill();
+            let _ = child.wait();
+            return None;
+        }
+        match child.try_wait() {
+            Ok(Some(st)) => return Some(st.code() == Some(3)),
+            Ok(None) => {}
+            Err(_) => return None,
+        }
+        if t0.elapsed().as_secs() > 6 * 3600 {
+            let _ = child.kill();
+            let _ = child.wait();
+            return Some(false);
+        }
+    }
+}
 
 /// The whole check runs on a worker thread; this thread only watches its progress. Every block has its own
 /// guard (SMOKE, the scheduler's time-out, watchdogs around free-running threads and pipeline runs), but the
 /// worker also calls the real collector directly (serial oracle, `pre` calls, MOVF, …): should such a call
 /// block in a state the SMOKE block did not reach, the check must still END with a verdict — HANG, a
-/// violation — instead of hanging itself.
+/// violation — instead of hanging itself. No verdict comes from one clock reading: a second during which this
+/// thread woke late or some thread sat in uninterruptible sleep does not count (the machine, not the code), and
+/// when `STALL_SECS` responsive seconds have passed without progress the check is RE-EXECUTED in a fresh process
+/// up to that case; only if that process stands still at the same case is `collector-call-hangs` reported.
 pub fn run(cx: &mut Ctx) {
     let (prop, seed, tier) = (cx.prop.clone(), cx.seed, cx.tier);
     let (tx, rx) = std::sync::mpsc::channel::<Ctx>();
-    std::thread::Builder::new()
-        .name("c16-worker".into())
-        .stack_size(64 << 20)
-        .spawn(move || {
-            let mut inner = Ctx::new(&prop, seed, tier);
-            run_inner(&mut inner);
-            let _ = tx.send(inner);
-        })
-        .expect("spawn");
-    let mut last = (PROGRESS.load(std::sync::atomic::Ordering::Relaxed), std::time::Instant::now());
+    {
+        let prop = prop.clone();
+        std::thread::Builder::new()
+            .name("c16-worker".into())
+            .stack_size(64 << 20)
+            .spawn(move || {
+                let mut inner = Ctx::new(&prop, seed, tier);
+                run_inner(&mut inner);
+                let _ = tx.send(inner);
+            })
+            .expect("spawn");
+    }
+    let mut notes: Vec<String> = vec![];
+    let mut last_p = PROGRESS.load(std::sync::atomic::Ordering::Relaxed);
+    let mut stuck_secs = 0u64;
+    let mut discounted = 0u64;
     loop {
+        let t = std::time::Instant::now();
         match rx.recv_timeout(std::time::Duration::from_secs(1)) {
             Ok(inner) => {
                 *cx = inner;
+                if discounted > 0 {
+                    notes.push(format!("C16 progress watchdog: {discounted} s without progress were not counted (this thread woke late or a thread was in uninterruptible sleep: machine stall)"));
+                }
+                cx.notes.extend(notes);
                 return;
             }
             Err(std::sync::mpsc::RecvTimeoutError::Disconnected) => panic!("C16 worker thread died"),
             Err(std::sync::mpsc::RecvTimeoutError::Timeout) => {
                 let p = PROGRESS.load(std::sync::atomic::Ordering::Relaxed);
-                if p != last.0 {
-                    last = (p, std::time::Instant::now());
-                } else if last.1.elapsed().as_secs() > STALL_SECS {
-                    let lastreq = LAST_REQ.lock().map(|g| g.clone()).unwrap_or_default();
-                    let i = cx.case("SMOKE".into(), "HANG".into(), false);
-                    cx.oracle_fail(i, "collector-call-hangs", format!("the check made no progress for {STALL_SECS} s after {p} cases: a call into the real code does not return (last registered request: {lastreq})"));
-                    return;
+                if p != last_p {
+                    last_p = p;
+                    stuck_secs = 0;
+                    continue;
+                }
+                if t.elapsed().as_millis() > 1500 || some_thread_in_d_state() {
+                    discounted += 1;
+                    continue;
+                }
+                stuck_secs += 1;
+                if stuck_secs <= stall_secs() {
+                    continue;
+                }
+                let cases = CASES.load(std::sync::atomic::Ordering::Relaxed);
+                let lastreq = LAST_REQ.lock().map(|g| g.clone()).unwrap_or_default();
+                if confirm_at().is_some() {
+                    // this IS the confirming process: say where it stands still and leave
+                    std::process::exit(if Some(cases) == confirm_at() { 3 } else { 4 });
+                }
+                match confirm_stall_in_fresh_process(&prop, seed, tier, cases, p) {
+                    Some(true) => {
+                        let i = cx.case("SMOKE".into(), "HANG".into(), false);
+                        cx.oracle_fail(i, "collector-call-hangs", format!("the check made no progress for {} s after {cases} cases, and a re-execution in a fresh process stood still after the same {cases} cases: a call into the real code does not return (last registered request: {lastreq})", stall_secs()));
+                        return;
+                    }
+                    Some(false) => {
+                        notes.push(format!("C16 progress watchdog: no progress for {} s after {cases} cases, but a re-execution in a fresh process got past that case: machine stall, not a verdict", stall_secs()));
+                        stuck_secs = 0;
+                    }
+                    None => {
+                        stuck_secs = 0;
+                    }
                 }
             }
         }
@@ -1586,11 +2833,19 @@ fn run_inner(cx: &mut Ctx) {
         stress(cx, Some(0), 8, 5_000, &[1, 2], true);
     }
 
+    // two threads that both start on an ABSENT name, 10^4 fresh collectors (the first increment creates the
+    // counter: a second critical section there has no other witness than a free-running race)
+    if hangs() == 0 {
+        first_inc(cx, cx.budget(10_000, 100_000), 1, 2, cx.budget(6, 40) as u64);
+        if !quick {
+            first_inc(cx, 100_000, 5, 5, 40);
+        }
+    }
     lap("stress");
     // (5) real pipelines with and without a collector: GENERATED programs (pipe::gen_prog: every transform
     // family, barriers, joins, global combines), reorder-inert and hazard-free so that the plain-vector
     // reference applies; the model computes the expected result from the description
-    let prounds = cx.budget(70, 700);
+    let prounds = cx.budget(300, 1500);
     for round in 0..prounds {
         let prog = gen_inert_prog(cx, round);
         let mode = if cx.rng.chance(1, 2) { PMode::Seq } else { PMode::Par(*cx.rng.pick(&pipe::partition_choices(prog.src.len()))) };
@@ -1611,16 +2866,16 @@ fn run_inner(cx: &mut Ctx) {
             5 => vec!["ee", "ok"],
             _ => vec!["ok", "ee"],
         };
-        let hammer = hangs() == 0 && round % 3 == 0;
+        let hammer = if hangs() > 0 { Hammer::No } else { match round % 6 { 0 | 3 => Hammer::IncSnap, 1 | 4 => Hammer::SetRegister, _ => Hammer::No } };
         mrun(cx, &prog, mode, &pre, &runs, hammer);
     }
     {
         let small = PProg { shape: Shape::T, src: (1..=5).map(V::I).collect(), steps: vec![Step::Map(Fn_::Mul(2)), Step::Filter(pipe::Pred::Ne(6))] };
         for runs in [vec!["pe"], vec!["ee"], vec!["pe", "ee", "ok"], vec!["ok", "ee", "pe"]] {
-            mrun(cx, &small, PMode::Seq, &[Op::RegC("rows", 1)], &runs, false);
+            mrun(cx, &small, PMode::Seq, &[Op::RegC("rows", 1)], &runs, Hammer::No);
         }
         // the shadowing witness: a user counter named execution_time_ms, then a successful run
-        mrun(cx, &small, PMode::Seq, &[Op::Set("execution_time_ms", 9)], &["ok"], false);
+        mrun(cx, &small, PMode::Seq, &[Op::Set("execution_time_ms", 9)], &["ok"], Hammer::No);
     }
     lap("pipelines");
     // (6) sleeping pipeline, run once / twice / three times: elapsed covers exactly the LAST run
@@ -1634,6 +2889,25 @@ fn run_inner(cx: &mut Ctx) {
         msleep(cx, mode, 2);
     }
     lap("sleep");
+    // (7) the JSON export over the whole value space; the user's handle / the slot during a run
+    mjson_block(cx);
+    lap("mjson");
+    mmid_block(cx);
+    lap("mmid");
+    // (8) the stamps when the pipeline's graph lock is contended: held on purpose (deterministic), then free-running
+    for _ in 0..cx.budget(2, 10) {
+        for which in ["start", "end"] {
+            for mode in [PMode::Seq, PMode::Par(2)] {
+                mheld(cx, which, mode);
+            }
+        }
+    }
+    for op in [Op::Inc("a", 3), Op::Inc("zz", 4), Op::Set("a", 5), Op::RegC("b", 7), Op::RegG("a", 2), Op::St, Op::En] {
+        mheldc(cx, &vec![("a", Val::C(10))], op);
+    }
+    mcontend(cx, 1500, cx.budget(300, 3000), cx.budget(5, 40) as u64);
+    lap("contended");
+    cx.notes.push("C16 'attaching a collector never changes the result': in the Lean model this clause is STRUCTURAL (run_collect hands the node graph, never the metrics slot, to planner and engine), so its theorems hold by construction; the assurance for it is the MRUN/MPOISON/MSLEEP/MMID differential cases (real run with a collector == real run without == model's computed result == plain-vector reference), including runs during which another thread increments / sets / registers on the shared collector".into());
     let stalls = STALLS.load(std::sync::atomic::Ordering::Relaxed);
     if stalls > 0 {
         cx.count_n("metrics:time-outs-not-confirmed-by-re-execution(machine-stall)", stalls as u64);
